@@ -188,8 +188,9 @@ func (d detRand) Read(p []byte) (int, error) { copy(p, d.r.Bytes(len(p))); retur
 
 func newSSHRSA(r *h.Rand) *party {
 	rsaOnce.Do(func() {
-		for i := 0; i < 2; i++ {
-			k, err := rsa.GenerateKey(crand.Reader, 2048)
+		// moduli whose bit length is and is not a multiple of eight (the ciphertext is ⌈bits/8⌉ bytes either way)
+		for _, bits := range []int{2048, 2048, 2047, 2049, 2055} {
+			k, err := rsa.GenerateKey(crand.Reader, bits)
 			if err != nil {
 				panic(err)
 			}
